@@ -237,6 +237,27 @@ func c16Run(r *zsim.Run) {
 		r.Failf("workload-blocked", "adders/flusher/waiter are blocked inside the executor: %v", r.Alive(false))
 		return
 	}
+	if o.Intn(2) == 0 {
+		// nobody calls Flush or Wait any more: the periodic tick (or the retiring flusher) must still get every
+		// task that was handed in executed
+		allDone := func() bool {
+			for _, t := range all {
+				if t.addRet != 0 && t.execs == 0 {
+					return false
+				}
+			}
+			return true
+		}
+		if !r.WaitFor(200*interval, interval, allDone) {
+			for _, t := range all {
+				if t.addRet != 0 && t.execs == 0 {
+					r.Failf("task-stranded", "task %d.%d was handed in at seq %d; 200 intervals later, without any further Add, Flush or Wait, it has not been executed (background flusher alive: %v, tasks in the container: %d)", t.adder, t.n, t.addRet, pe.guarded, len(pending()))
+					return
+				}
+			}
+		}
+		r.Probe("idle_tail_observed")
+	}
 	w := &c16Wait{inv: r.Seq()}
 	wait()
 	w.ret = r.Seq()
